@@ -17,7 +17,7 @@ def run(res, f, tier):
         raise Inconclusive("recursive evaluator not found from Expr::evaluate")
     res.floor("node kinds dispatched by the evaluator", len(t["rows"]), 47)
     mm, st = dispatch.compare_rows(t, classes=("bool",), ignore_op_wiring=True)
-    res.floor("evaluator paths enumerated", st["paths"], 140)
+    res.floor("evaluator paths enumerated", st["paths"], 100)
     for m in mm:
         res.violation("C05|order|%s" % m["kind"],
                       "evaluation order / laziness of node kind %s differs from the specification" % m["kind"],
